@@ -69,7 +69,7 @@ const std::vector<Opt>& tz_opts() {
                                {true, "localtime2"}, {true, ":localtimes/site"}, {true, "Dir/localtime"}, {true, "LOCALTIME"}, {true, "localtim"}};
   return v;
 }
-const std::vector<Opt>& lt_opts() { static std::vector<Opt> v = {{false, ""}, {true, "/abs/lt"}, {true, "/abs/missing"}, {true, ""}, {true, "Dir/Y"}}; return v; }
+const std::vector<Opt>& lt_opts() { static std::vector<Opt> v = {{false, ""}, {true, "/abs/lt"}, {true, "/abs/missing"}, {true, ""}, {true, "Dir/Y"}, {true, ":/abs/lt"}}; return v; }   // (the value of $LOCALTIME is used as it is: no ':' is stripped from it)
 const std::vector<std::string>& name_opts() {
   static std::vector<std::string> v = {"X", "Dir/Y", "No/Such", "/abs/zone", "/abs/missing", "file:X", "file:/abs/zone", "file:", "file:file:X", "", ":X", "UTC", "UTC0",
                                        "Fixed/UTC+05:30:00", "Fixed/UTC+25:00:00", "fixed/utc+01:00:00", "ADir", "NoPerm", "Trunc", "Leap", "BadMagic", "Empty", "V1", "Real",
@@ -265,7 +265,7 @@ void expand_nul_name(std::string* n) {
   else if (*n == "NUL4") *n = std::string("Fixed/UTC-00:00:0\0", 18);
 }
 
-const int64_t kCross = 6 * 19 * 5;
+const int64_t kCross = 6 * 19 * 6;
 
 }  // namespace
 
@@ -360,7 +360,7 @@ C19Case gen_c19(const std::string& part, const std::string& tier, uint64_t seed,
     c.chunk2 = static_cast<int>(r.pick(std::vector<int>{1, 3, 51, 53, 512, 65536}));
     return c;
   }
-  set_env(r.below(6), r.below(19), r.below(5));
+  set_env(r.below(6), r.below(19), r.below(6));
   if (r.chance(0.15)) { c.tz_set = true; c.tz = r.chance(0.5) ? ":" + r.pick(name_opts()) : r.pick(name_opts()); }
   if (r.chance(0.1)) { c.lt_set = true; c.lt = r.pick(name_opts()); }
   int nops = static_cast<int>(r.range(1, 6));
